@@ -1,7 +1,7 @@
 (* CheckRagged.v -- flattening of ragged model states and comparison with observations
    of the implementation (tie K for RaggedModel.v). No proofs. *)
 From Coq Require Import ZArith List Bool.
-From Darr Require Import Base ArrayModel RaggedModel CheckArray.
+From Darr Require Import Base ArrayModel RaggedModel CheckArray Spec.
 Import ListNotations.
 Open Scope Z_scope.
 
@@ -61,4 +61,20 @@ Definition rdbg_history (c : res rworld) (ks0 : list (option Z)) (ops : list (ro
   match c with
   | Ok w => (0, rworld_flat w, reads_flat w ks0) :: rdbg_steps w ops
   | Err e => [(exc_code e, [], [])]
+  end.
+
+(* C05 evaluated on observed files: what a reader of the three descriptors and the two
+   data files finds *)
+Definition rchk_wf (d : rdir) : bool :=
+  match index_rows (r_indices d), a_descr (r_values d), a_data (r_values d), r_descr d with
+  | Some idx, Val vds, Some vbytes, Val td =>
+      match chain_ok 0 idx with
+      | Some N =>
+          (N =? lenof (d_shape vds)) && (rd_len td =? zlen idx)
+          && (rd_size td =? N * prodZ (tl (d_shape vds))) && zlist_eqb (rd_atom td) (tl (d_shape vds))
+          && numtype_eqb (rd_nt td) (d_nt vds)
+          && (zlen vbytes =? prodZ (d_shape vds) * itemsize (d_nt vds))
+      | None => false
+      end
+  | _, _, _, _ => false
   end.
